@@ -2,12 +2,14 @@
    stream (hostile bytes, attacker-chosen footer), from ANY state of the Rust struct, the
    translated get_file / get_hash / read return a value or an error — never a panic site — and
    the loop of `read` ends within (M+2)·(|offsets|+2) turns. *)
+From MLA Require Import Limit.
 From MLA Require Import Base Stream Blocks Reader Total TotalReader SrcTie3Reader.
 From MLAGen Require Src3d.
 From Coq Require Import ZifyBool ZifyNat ZifyN.
 Open Scope N_scope.
 
 Section TotalSrc.
+  Context {LIM : Limit}.
   Variable S : Stream.
   Variables FNMAX T_START T_CONTENT T_EOA T_EOF : N.
   Variable site_index : N.
